@@ -920,6 +920,34 @@ def sort(x, dim=-1, descending=False, stable=False):
 def argsort(x, dim=-1, descending=False, stable=False):
     return sort(x, dim, descending).indices
 
+def searchsorted(sorted_sequence, values, right=False, **k):
+    """index i with seq[i-1] < v <= seq[i] (left) by comparisons"""
+    seq = [Frac.of(e) for e in _T(sorted_sequence)._a.reshape(-1)]
+    def f(v):
+        v = Frac.of(v); i = 0
+        for e in seq:
+            if decide((e <= v) if right else (e < v)): i += 1
+            else: break
+        return i
+    return _ew1(f, values, 'i')
+def median(x, dim=None, keepdim=False):
+    x = _T(x)
+    if dim is None:
+        n = x._a.size
+        s = sort(reshape(x, -1), dim=0).values
+        return s[(n - 1) // 2]
+    raise EngineGap("median along a dim")
+def std(x, dim=None, unbiased=True, keepdim=False, correction=1):
+    x = _T(x)
+    n = x._a.size if dim is None else x._a.shape[dim]
+    m = mean(x, dim, True) if dim is not None else mean(x)
+    v = div(sum(square(sub(x, m)), dim, keepdim) if dim is not None else sum(square(sub(x, m))), n - (1 if unbiased else 0))
+    return sqrt(v)
+def var(x, dim=None, unbiased=True, keepdim=False):
+    r = std(x, dim, unbiased, keepdim)
+    return mul(r, r)
+def rad2deg(x): return div(mul(x, 180), _pi())
+
 @api
 def clamp(x, min=None, max=None):
     def f(a):
@@ -1326,7 +1354,7 @@ def _bind():
         reciprocal rsqrt gt ge lt le eq ne logical_not logical_and logical_or all any sum mean prod cumsum max min amax amin
         argmax argmin clamp clip unsqueeze squeeze expand expand_as repeat tile reshape view view_as flatten ravel transpose
         swapaxes swapdims permute movedim moveaxis t split chunk unbind select narrow index_select gather take_along_dim flip roll
-        diagonal matmul mm bmm mv dot norm det inverse topk sort argsort where isnan isinf isfinite floor ceil round floor_divide remainder
+        diagonal matmul mm bmm mv dot norm det inverse topk sort argsort median std var rad2deg where isnan isinf isfinite floor ceil round floor_divide remainder
         maximum minimum tril triu atan2 cross outer diag trace expm1 log1p vecdot multiply divide true_divide absolute'''.split()
     for n in names:
         if n in ('to', 'float', 'int', 'bool'): continue
